@@ -96,6 +96,47 @@ func (g *Gen) verifyFunc(fc *FuncContract) (*VC, error) {
 		}
 		pc = and(pc, t)
 	}
+	if gl := fc.Opts["init-globals"]; gl != "" {
+		if err := fr.runGlobalInit(strings.Split(gl, ","), st); err != nil {
+			return vc, fmt.Errorf("%s: %v", fc.Key, err)
+		}
+		for _, glob := range fr.initGlobals {
+			ws := g.globalWriters(glob)
+			goal := "true"
+			if len(ws) > 0 {
+				goal = "false"
+			}
+			vc.addObl(&Obligation{Name: "frame:global:" + glob.Name(), Kind: "frame", PC: "true", Goal: goal,
+				Src: fmt.Sprintf("no function other than the package initialiser writes %s or a map/slice of its type; writers found: %v", glob.Name(), ws)})
+		}
+		env.old = st.clone()
+		vc.entrySt = st.clone()
+	}
+	for _, u := range fc.Uses {
+		lm := g.findLemma(fc.PkgPath, u)
+		if lm == nil {
+			return vc, fmt.Errorf("%s: uses unknown lemma %s", fc.Key, u)
+		}
+		t, err := env.boolExpr(lm.E)
+		if err != nil {
+			return vc, fmt.Errorf("%s: lemma %s: %v", fc.Key, u, err)
+		}
+		pc = and(pc, t)
+		vc.note("lemma %s assumed at entry of %s (proved separately as obligation lemma:%s)", u, shortKey(fc.Key), u)
+	}
+	if fc.HasMod && !fc.ModAll {
+		vc.frameOn = true
+		vc.frameTg = map[string][]modTarget{}
+		for _, m := range fc.Modifies {
+			tg, err := env.modTargets(m)
+			if err != nil {
+				return vc, fmt.Errorf("%s: modifies: %v", fc.Key, err)
+			}
+			for _, t := range tg {
+				vc.frameTg[t.heap] = append(vc.frameTg[t.heap], t)
+			}
+		}
+	}
 	pc = vc.define("entrypc", "Bool", pc)
 	entryPC := pc
 	// cover: precondition satisfiable
@@ -152,17 +193,6 @@ func (g *Gen) verifyFunc(fc *FuncContract) (*VC, error) {
 // frameObligations: everything outside the modifies set is unchanged for objects that existed at entry.
 func (vc *VC) frameObligations(fr *Frame, fc *FuncContract, penv *SpecEnv, rpc string, rst *State) error {
 	entry := vc.entrySt
-	eenv := penv.withState(entry)
-	targets := map[string][]modTarget{}
-	for _, m := range fc.Modifies {
-		tg, err := eenv.modTargets(m)
-		if err != nil {
-			return fmt.Errorf("%s: modifies: %v", fc.Key, err)
-		}
-		for _, t := range tg {
-			targets[t.heap] = append(targets[t.heap], t)
-		}
-	}
 	var names []string
 	for k := range rst.m {
 		if strings.HasPrefix(k, "$") {
@@ -176,40 +206,9 @@ func (vc *VC) frameObligations(fr *Frame, fc *FuncContract, penv *SpecEnv, rpc s
 		return nil
 	}
 	for _, h := range names {
-		cur := rst.m[h]
-		old := vc.stGet(entry, h)
-		if cur == old {
-			continue
+		if g := vc.frameGoal(h, rst.m[h]); g != "" {
+			vc.addObl(&Obligation{Name: "modifies:" + h, Kind: "modifies", PC: rpc, Goal: g, Src: "frame: " + h + " unchanged outside the modifies set"})
 		}
-		srt := vc.sortOfState(h)
-		if !strings.HasPrefix(srt, "(Array Int ") {
-			continue
-		}
-		var excl []string
-		whole := false
-		var idxExcl []string
-		for _, t := range targets[h] {
-			if t.ref == "" {
-				whole = true
-			}
-			if t.idx != "" {
-				idxExcl = append(idxExcl, fmt.Sprintf("(and (= r %s) (= j %s))", t.ref, t.idx))
-			} else {
-				excl = append(excl, fmt.Sprintf("(= r %s)", t.ref))
-			}
-		}
-		if whole {
-			continue
-		}
-		vc.d.add("rootref", "(declare-fun rootref (Int) Int)\n(assert (forall ((p Int)) (! (=> (> p 0) (= (rootref p) p)) :pattern ((rootref p)))))")
-		var goal string
-		if len(idxExcl) > 0 {
-			goal = fmt.Sprintf("(forall ((r Int) (j Int)) (=> (and (> (rootref r) 0) (< (rootref r) $alloc@0) (not %s) (not %s)) (= (select (select %s r) j) (select (select %s r) j))))",
-				or(excl...), or(idxExcl...), cur, old)
-		} else {
-			goal = fmt.Sprintf("(forall ((r Int)) (=> (and (> (rootref r) 0) (< (rootref r) $alloc@0) (not %s)) (= (select %s r) (select %s r))))", or(excl...), cur, old)
-		}
-		vc.addObl(&Obligation{Name: "modifies:" + h, Kind: "modifies", PC: rpc, Goal: goal, Src: "frame: " + h + " unchanged outside the modifies set"})
 	}
 	return nil
 }
@@ -338,14 +337,27 @@ func (vc *VC) inlineDef(fc *FuncContract) (string, error) {
 		fr.vals[p] = []string{n}
 		ps = append(ps, fmt.Sprintf("(%s %s)", n, vc.d.sortOf(p.Type())))
 	}
-	st := &State{m: map[string]string{"$alloc": "0"}}
+	st := &State{m: map[string]string{"$alloc": "1"}}
+	sub.nfresh = vc.nfresh + 100000*(len(vc.pureDefs)+1)
+	if gl := fc.Opts["init-globals"]; gl != "" {
+		if err := fr.runGlobalInit(strings.Split(gl, ","), st); err != nil {
+			return "", fmt.Errorf("inline contract %s: %v", fc.Key, err)
+		}
+	}
 	_, _, res := fr.run("true", st)
 	if sub.failed != nil {
 		return "", fmt.Errorf("inline contract %s: %v", fc.Key, sub.failed)
 	}
-	if len(sub.consts) > 0 || len(sub.defs) > 0 || len(res) != 1 {
-		return "", fmt.Errorf("inline contract %s: body is not a closed heap-free term (%d consts, %d results): %v", fc.Key, len(sub.consts), len(res), sub.consts)
+	if len(res) != 1 {
+		return "", fmt.Errorf("inline contract %s: needs exactly one result", fc.Key)
 	}
+	for _, c := range sub.consts {
+		vc.consts = append(vc.consts, c)
+	}
+	for k := range sub.cdecl {
+		vc.cdecl[k] = true
+	}
+	vc.defs = append(vc.defs, sub.defs...)
 	// merged result in closed mode: rebuild ite over return points
 	t := fr.rets[len(fr.rets)-1].vals[0][0]
 	for j := len(fr.rets) - 2; j >= 0; j-- {
@@ -440,7 +452,11 @@ func (vc *VC) ghostDefine(gf *GhostFunc) (*ghostDef, error) {
 	if err != nil {
 		return nil, fmt.Errorf("ghost %s: %v", gf.Name, err)
 	}
-	body = e2.deref(body)
+	if _, isPtr := rt.Underlying().(*types.Pointer); isPtr {
+		body = asPtr(body)
+	} else {
+		body = e2.deref(body)
+	}
 	for _, h := range gd.heaps {
 		ps = append(ps, fmt.Sprintf("(%s %s)", sym("hp!"+h), vc.sortOfState(h)))
 	}
@@ -460,12 +476,7 @@ func (g *Gen) lemmaVC(lm *Lemma) (*VC, error) {
 	env := vc.newEnv(lm.PkgPath, st)
 	pc := "true"
 	for _, u := range lm.Uses {
-		var ul *Lemma
-		for _, l := range g.lemmas {
-			if l.Name == u && l.PkgPath == lm.PkgPath {
-				ul = l
-			}
-		}
+		ul := g.findLemma(lm.PkgPath, u)
 		if ul == nil {
 			return vc, fmt.Errorf("lemma %s uses unknown lemma %s", lm.Name, u)
 		}
@@ -493,6 +504,27 @@ func (g *Gen) lemmaVC(lm *Lemma) (*VC, error) {
 	t, err := env.boolExpr(body)
 	if err != nil {
 		return vc, fmt.Errorf("lemma %s: %v", lm.Name, err)
+	}
+	if lm.IndVar != "" {
+		iv, ok := env.vars[lm.IndVar]
+		if !ok {
+			return vc, fmt.Errorf("lemma %s: induction variable %s is not a top-level quantified variable", lm.Name, lm.IndVar)
+		}
+		from, err := env.expr(lm.IndFrom)
+		if err != nil {
+			return vc, fmt.Errorf("lemma %s: %v", lm.Name, err)
+		}
+		// hypothesis: body with n-1 for n
+		henv := *env
+		henv.vars = copyVars(env.vars)
+		henv.vars[lm.IndVar] = tv{t: fmt.Sprintf("(- %s 1)", iv.t), ty: iv.ty}
+		ht, err := henv.boolExpr(body)
+		if err != nil {
+			return vc, fmt.Errorf("lemma %s: %v", lm.Name, err)
+		}
+		vc.addObl(&Obligation{Name: "lemma:" + lm.Name + ":base", Kind: "lemma", PC: and(pc, fmt.Sprintf("(<= %s %s)", iv.t, from.t)), Goal: t, Src: "base case: " + lm.Src})
+		vc.addObl(&Obligation{Name: "lemma:" + lm.Name + ":step", Kind: "lemma", PC: and(pc, fmt.Sprintf("(> %s %s)", iv.t, from.t), ht), Goal: t, Src: "induction step: " + lm.Src})
+		return vc, nil
 	}
 	vc.addObl(&Obligation{Name: "lemma:" + lm.Name, Kind: "lemma", PC: pc, Goal: t, Src: lm.Src})
 	return vc, nil
@@ -529,4 +561,18 @@ func renderQuery(o *Obligation, seed int) string {
 	}
 	b.WriteString("(check-sat)\n")
 	return b.String()
+}
+
+func (g *Gen) findLemma(pkgPath, name string) *Lemma {
+	for _, l := range g.lemmas {
+		if l.Name == name && l.PkgPath == pkgPath {
+			return l
+		}
+	}
+	for _, l := range g.lemmas {
+		if l.Name == name {
+			return l
+		}
+	}
+	return nil
 }
